@@ -8,7 +8,8 @@
 (* History operations (flat records):                                      *)
 (*   [op |-> "derive", from |-> h, to |-> c, m |-> method]   c := h.m(..)  *)
 (*   [op |-> "extend", from |-> c, to |-> c2, m |-> method]  c2 := c.m(..) *)
-(*   [op |-> "session", from |-> c, to |-> h2, m |-> how]    h2 := c.how() *)
+(*   [op |-> "session", from |-> x, to |-> h2, m |-> how]    h2 := x.how() *)
+(*        (x a chain value, used up, or a reusable handle, which stays)    *)
 (*   [op |-> "finish", from |-> x, to |-> 0, m |-> finisher]               *)
 (* What a finisher shows depends on its own path only.                     *)
 (***************************************************************************)
@@ -25,8 +26,9 @@ Step(st, a) ==
           kind |-> (a.to :> "chain") @@ (IF a.op = "extend" THEN [st.kind EXCEPT ![a.from] = "dead"] ELSE st.kind),
           next |-> st.next + 1, calls |-> st.calls + 1]
     [] a.op = "session" ->
-         [path |-> (a.to :> Append(st.path[a.from], [m |-> a.m, n |-> 0])) @@ st.path,
-          kind |-> (a.to :> "reusable") @@ [st.kind EXCEPT ![a.from] = "dead"],
+         [path |-> (a.to :> Append(st.path[a.from], [m |-> a.m, n |-> a.to])) @@ st.path,   \* n: the session's own argument (context value)
+          \* a chain value is used up; a reusable handle stays usable next to the handle derived from it
+          kind |-> (a.to :> "reusable") @@ (IF st.kind[a.from] = "chain" THEN [st.kind EXCEPT ![a.from] = "dead"] ELSE st.kind),
           next |-> st.next + 1, calls |-> st.calls]
     [] OTHER -> \* finish
          [st EXCEPT !.kind = IF st.kind[a.from] = "chain" THEN [st.kind EXCEPT ![a.from] = "dead"] ELSE st.kind]
@@ -37,7 +39,7 @@ Chains(st) == {i \in Ids(st) : st.kind[i] = "chain"}
 Enabled(st) ==
      {[op |-> "derive", from |-> h, to |-> st.next, m |-> m] : h \in Reusable(st), m \in Methods}
 \cup {[op |-> "extend", from |-> c, to |-> st.next, m |-> m] : c \in Chains(st), m \in Methods}
-\cup {[op |-> "session", from |-> c, to |-> st.next, m |-> w] : c \in {x \in Chains(st) : Cardinality(Reusable(st)) < MaxHandles}, w \in Hows}
+\cup {[op |-> "session", from |-> c, to |-> st.next, m |-> w] : c \in {x \in Chains(st) \cup Reusable(st) : Cardinality(Reusable(st)) < MaxHandles}, w \in Hows}
 \cup {[op |-> "finish", from |-> x, to |-> 0, m |-> f] : x \in Reusable(st) \cup Chains(st), f \in Finishers}
 
 VARIABLES st, hist
